@@ -217,6 +217,24 @@ def e2e_stage(res, tier, seed, table):
                         '    for n in cs.iter().copied() { let v = leptos_i18n::%s!(%s, count = move || n, zero => "zero", one => "one", two => "two", few => "few", many => "many", _ => "other"); '
                         'emit(%d, &format!("c{}", n), v); }' % (counts_arr, mac, lv, oid))
                 c.add(body, {"kind": "t_plural", "locale": loc, "rule": rule})
+            # the context-taking members of the family, and a call with a subset of the arms in another order
+            for rule, mac, call in (("cardinal", "t_plural", True), ("cardinal", "tu_plural", False), ("ordinal", "t_plural_ordinal", True), ("ordinal", "tu_plural_ordinal", False)):
+                oid = c.next_id
+                lv = "Locale::" + e2e.ident(loc)
+                body = ('    let cs: Vec<u64> = vec![%s];\n'
+                        '    with_ctx(%s, |i18n| { for n in cs.iter().copied() { let v = leptos_i18n::%s!(i18n, count = move || n, zero => "zero", one => "one", two => "two", few => "few", many => "many", _ => "other"); '
+                        'emit(%d, &format!("c{}", n), %s); } });' % (counts_arr, lv, mac, oid, "v()" if call else "v"))
+                c.add(body, {"kind": "t_plural", "locale": loc, "rule": rule, "macro": mac})
+            arms = rng.sample(["zero", "one", "two", "few", "many"], rng.randint(1, 3))
+            order = arms + ["_"]
+            rng.shuffle(order)
+            arms_src = ", ".join(('_ => "rest"' if a == "_" else '%s => "%s"' % (a, a)) for a in order)
+            for rule, mac in (("cardinal", "td_plural"), ("ordinal", "td_plural_ordinal")):
+                oid = c.next_id
+                body = ('    let cs: Vec<u64> = vec![%s];\n'
+                        '    for n in cs.iter().copied() { let v = leptos_i18n::%s!(%s, count = move || n, %s); emit(%d, &format!("c{}", n), v); }' % (
+                            counts_arr, mac, "Locale::" + e2e.ident(loc), arms_src, oid))
+                c.add(body, {"kind": "t_plural", "locale": loc, "rule": rule, "macro": mac + ":subset", "arms": arms})
         crates.append(c)
     root = e2e.write_workspace("c05", crates, seed=seed, surface_kw={"plain": True})
     status, secs, _ = e2e.build_workspace(root, crates)
@@ -238,9 +256,11 @@ def e2e_stage(res, tier, seed, table):
                 if exp["kind"] == "t_plural":
                     res.ev()
                     want = table[loc][exp["rule"]]["cat"][str(n)]
+                    if "arms" in exp and want not in exp["arms"]:
+                        want = "rest"
                     o = got.get("c%d" % n) or got.get("*") or {}
                     text = o.get("v", "<<%s>>" % o.get("panic", "missing"))
-                    res.count("e2e:td_plural")
+                    res.count("e2e:" + exp.get("macro", "td_plural"))
                     if text != want:
                         res.violation("C05/e2e-td_plural-category-differs", "locale=%s rule=%s count=%d expected %s got %s" % (loc, exp["rule"], n, want, text),
                                       {"locale": loc, "rule": exp["rule"], "count": n})
